@@ -1,2 +1,41 @@
-//! verif::normalize — guarded hooks (cfg rustybuzz_verif).
+//! verif::normalize — guarded hooks (cfg rustybuzz_verif) for property C09.
+//! Thin wrappers around the functions the normalizer uses; nothing here changes behaviour.
 #![allow(unused_imports)]
+use crate::hb::buffer::hb_glyph_info_t;
+use crate::hb::ot_layout::{
+    _hb_glyph_info_get_modified_combining_class, _hb_glyph_info_is_unicode_mark,
+    _hb_glyph_info_is_unicode_space,
+};
+use crate::hb::unicode::{hb_unicode_funcs_t, CharExt, GeneralCategoryExt};
+
+/// `unicode::compose` — what `compose_unicode` calls for the default shaper.
+pub fn compose(a: char, b: char) -> Option<char> {
+    crate::hb::unicode::compose(a, b)
+}
+
+/// `unicode::decompose` — what `decompose_unicode` calls; second element `'\0'` for singletons.
+pub fn decompose(ab: char) -> Option<(char, char)> {
+    crate::hb::unicode::decompose(ab)
+}
+
+/// `CharExt::modified_combining_class`.
+pub fn modified_combining_class(c: char) -> u8 {
+    c.modified_combining_class()
+}
+
+/// What the normalizer reads back from a glyph info initialised by the real `init_unicode_props`:
+/// (is_unicode_mark, modified combining class as stored, is_unicode_space, has a space fallback).
+pub fn info_props(c: char) -> (bool, u8, bool, bool) {
+    let mut info = hb_glyph_info_t::default();
+    info.glyph_id = c as u32;
+    let mut scratch = 0;
+    info.init_unicode_props(&mut scratch);
+    (
+        _hb_glyph_info_is_unicode_mark(&info),
+        _hb_glyph_info_get_modified_combining_class(&info),
+        _hb_glyph_info_is_unicode_space(&info),
+        c.space_fallback() != hb_unicode_funcs_t::NOT_SPACE,
+    )
+}
+
+pub const MAX_COMBINING_MARKS: usize = crate::hb::ot_shaper::MAX_COMBINING_MARKS;
